@@ -174,6 +174,78 @@ def forkmap(fn, args, jobs, timeout=300, on_result=None, deadline=None):
     return results
 
 
+class ChildRaised(Exception):
+    """an exception raised by whatshap code inside call_in_fork; carries what the oracles need"""
+
+    def __init__(self, type_name, message, site, is_command_line_error, tb):
+        super().__init__("%s: %s" % (type_name, message))
+        self.type_name = type_name
+        self.message = message
+        self.site = site
+        self.is_command_line_error = is_command_line_error
+        self.tb = tb
+
+
+class ChildCrashed(Exception):
+    pass
+
+
+def call_in_fork(fn, timeout=300):
+    """
+    Run fn() in a forked child and return its (picklable) result.  Every whatshap invocation of a history runs this
+    way: on the command line each operation is a process of its own, and process-global state (C++ statics, module
+    level caches) must neither leak from one operation into the next nor from one generated case into another.
+    """
+    rfd, wfd = os.pipe()
+    sys.stdout.flush()
+    sys.stderr.flush()
+    pid = os.fork()
+    if pid == 0:
+        try:
+            os.close(rfd)
+            try:
+                res = ("ok", fn())
+            except BaseException as e:  # noqa
+                tb = traceback.format_exc()
+                frames = [l for l in tb.strip().splitlines() if l.strip().startswith("File")]
+                site = frames[-1].split(", in ")[-1].strip() if frames and ", in " in frames[-1] else ""
+                is_cle = any(c.__name__ == "CommandLineError" for c in type(e).__mro__)
+                res = ("exc", (type(e).__name__, str(e), site, is_cle, tb[-1500:]))
+            try:
+                data = pickle.dumps(res)
+            except Exception as e:
+                data = pickle.dumps(("exc", ("UnpicklableResult", str(e), "", False, "")))
+            with os.fdopen(wfd, "wb") as w:
+                w.write(data)
+        finally:
+            os._exit(0)
+    os.close(wfd)
+    chunks = []
+    deadline = time.time() + timeout
+    with os.fdopen(rfd, "rb") as r:
+        while True:
+            ready, _, _ = select.select([r], [], [], max(0.0, min(5.0, deadline - time.time())))
+            if ready:
+                chunk = os.read(r.fileno(), 1 << 20)
+                if not chunk:
+                    break
+                chunks.append(chunk)
+            elif time.time() > deadline:
+                try:
+                    os.kill(pid, signal.SIGKILL)
+                except OSError:
+                    pass
+                os.waitpid(pid, 0)
+                raise ChildCrashed("timeout after %ds" % timeout)
+    _, status = os.waitpid(pid, 0)
+    if not chunks:
+        raise ChildCrashed("process died with wait status %d" % status)
+    kind, val = pickle.loads(b"".join(chunks))
+    if kind == "ok":
+        return val
+    raise ChildRaised(*val)
+
+
 def run_one_forked(fn, arg, timeout=120):
     return forkmap(fn, [arg], 1, timeout=timeout)[0]
 
